@@ -60,6 +60,8 @@ var c07Letters = func() []c07Letter {
 	plain("SetNReg(0,true,.)", func(d ivg.Destination, set int) { d.SetNReg(0, true, c07v(set, 0.25, 0.3)) })
 	plain("SetNReg(0,false,.)", func(d ivg.Destination, set int) { d.SetNReg(0, false, c07v(set, 0.75, 0.7)) })
 	plain("SetNReg(1,false,.)", func(d ivg.Destination, set int) { d.SetNReg(1, false, c07v(set, 2, 2.1)) })
+	plain("SetLOD(0,0)", func(d ivg.Destination, set int) { d.SetLOD(0, 0) })
+	plain("SetLOD(0,+Inf)", func(d ivg.Destination, set int) { d.SetLOD(0, float32(math.Inf(1))) })
 	plain("11xSetCReg(0,true)", func(d ivg.Destination, set int) {
 		for i := 0; i < 11; i++ {
 			d.SetCReg(0, true, rgba(uint8(i), 0, 0, 0xff))
@@ -130,6 +132,14 @@ var c07Letters = func() []c07Letter {
 			for i := 0; i < 18; i++ {
 				g.RelCubeTo(0.5, -1, 1, 1, 1.5, 0)
 			}
+			// zero-length steps between a curve and a smooth operation: the smooth operation starts from the pen
+			g.RelHLineTo(0)
+			g.RelSmoothCubeTo(1, 1, 2, 0)
+			g.RelQuadTo(1, -1, 2, 0)
+			g.RelVLineTo(0)
+			g.RelSmoothQuadTo(1, 1)
+			g.RelLineTo(0, 0)
+			g.RelSmoothQuadTo(1, -1)
 			g.ClosePathEndPath()
 			return nil
 		}},
@@ -163,7 +173,7 @@ var c07Core = func() []int {
 	keep := map[string]bool{"SetCSel(10)": true, "SetCSel(63)": true, "SetCSel(74)": true, "SetNSel(10)": true, "SetNSel(63)": true, "SetNSel(201)": true,
 		"SetCReg(0,true,red)": true, "SetCReg(1,false,blend)": true, "SetCReg(0,true,blend)": true, "SetNReg(0,true,.)": true, "SetNReg(1,false,.)": true,
 		"11xSetCReg(0,true)": true, "Reset": true, "CSel()": true, "NSel()": true, "SetGradient(2 stops)": true, "SetLinearGradient": true, "SetCircularGradient": true,
-		"SetPathData(adj1)": true, "probe": true, "arcs": true}
+		"SetPathData(adj1)": true, "probe": true, "arcs": true, "SetLOD(0,0)": true, "SetLOD(0,+Inf)": true, "long runs": true}
 	var c []int
 	for i, l := range c07Letters {
 		if keep[l.name] {
@@ -181,7 +191,7 @@ func init() {
 	mc.Register(&mc.Check{
 		ID:    "C07",
 		Level: "model_checking",
-		Rule: fmt.Sprintf("engine S: every history of <=5 letters over a %d-letter alphabet (thorough: both argument sets at every depth, and every history of 6 letters over a 21-letter core alphabet) (SetCSel/SetNSel at {0,9,10,62,63} and at arguments >= 64 (74, 201), incrementing and non-incrementing register writes incl. an incrementing write of a blend and of a palette index, CSel()/NSel() read-backs, Generator helpers SetGradient (2 and 3 stops), SetLinearGradient, SetCircularGradient, SetEllipticalGradient, SetPathData, a probe path with selector read-backs inside it, an arc path with unequal flags and both close-and-move operations, a path with runs of 20 and 35 lines and 18 curves), run in lock step through Generator->Renderer and Generator->Encoder->Decode->Renderer (histories <=3 also through DestinationLogger), two argument sets (dyadic, non-dyadic). ", nl) +
+		Rule: fmt.Sprintf("engine S: every history of <=3 letters over a %d-letter alphabet, extended by <=2 letters of a 24-letter core alphabet (thorough: every history of <=5 letters over the full alphabet with both argument sets, and every history of 6 letters over the core alphabet) (SetCSel/SetNSel at {0,9,10,62,63} and at arguments >= 64 (74, 201), incrementing and non-incrementing register writes incl. an incrementing write of a blend and of a palette index, CSel()/NSel() read-backs, Generator helpers SetGradient (2 and 3 stops), SetLinearGradient, SetCircularGradient, SetEllipticalGradient, SetPathData, a probe path with selector read-backs inside it, an arc path with unequal flags and both close-and-move operations, a path with runs of 20 and 35 lines and 18 curves and zero-length steps before smooth operations, SetLOD(0,0) and SetLOD(0,+Inf)); the Encoder of every other history is a zero-value one that is never Reset, run in lock step through Generator->Renderer and Generator->Encoder->Decode->Renderer (histories <=3 also through DestinationLogger), two argument sets (dyadic, non-dyadic). ", nl) +
 			"After every call the Encoder's and the Renderer's CSel()/NSel() must agree modulo 64 with each other and with the specification VM; helper return values must agree; at the end both recording rasterisers must hold the same calls and paints (bit-equal for the dyadic set, within the C01 tolerance otherwise). " +
 			"states = histories executed, transitions = letters executed; non-trivial = history containing a gradient helper or an incrementing write followed by a read-back",
 		Assumptions: []string{"non-dyadic argument set: rasteriser coordinates compared within 2^-17 relative to the raster size, gradient matrices within 2^-19 relative"},
@@ -204,6 +214,15 @@ func init() {
 					st.check(&c07Case{Letters: seq, Set: 1})
 				}
 				if len(seq) == D {
+					return
+				}
+				if !w.Thorough && len(seq) >= 3 {
+					// quick tier: the fourth and fifth letter come from the core alphabet
+					for _, l := range c07Core {
+						seq = append(seq, l)
+						rc()
+						seq = seq[:len(seq)-1]
+					}
 					return
 				}
 				for l := 0; l < nl; l++ {
@@ -283,7 +302,13 @@ func (st *c07State) check(cs *c07Case) {
 	var e encode.Encoder
 	var g2 generate.Generator
 	g2.SetDestination(&e)
-	g2.Reset(ivg.DefaultViewBox, ivg.DefaultPalette)
+	sum := 0
+	for _, l := range cs.Letters {
+		sum += l
+	}
+	if sum%2 == 0 {
+		g2.Reset(ivg.DefaultViewBox, ivg.DefaultPalette)
+	} // else: a zero-value Encoder, which stands for the default metadata without being Reset
 	e.HighResolutionCoordinates = cs.Set == 1
 	// pipeline 3 (optional): Generator -> DestinationLogger -> Renderer
 	var z3 render.Renderer
